@@ -20,6 +20,7 @@ func iptr(x any) uint64 {
 }
 
 func Lock(m locker, site string) {
+	w.ops++
 	if Active() {
 		yield(kLock, iptr(m), siteHash(site), 0)
 	}
@@ -34,6 +35,7 @@ func Unlock(m locker, site string) {
 }
 
 func RLock(m rlocker, site string) {
+	w.ops++
 	if Active() {
 		yield(kRLock, iptr(m), siteHash(site), 0)
 	}
@@ -61,6 +63,7 @@ func onceExit(addr uint64) {
 }
 
 func OnceDo(o *sync.Once, f func(), site string) {
+	w.ops++
 	if !Active() {
 		o.Do(f)
 		return
@@ -137,3 +140,9 @@ func hex32(h uint32) string {
 	}
 	return string(b)
 }
+
+// Ops returns the number of seam operations (lock, rlock, once, map range, file access)
+// executed since ResetOps: a deterministic, load-independent measure of the work a build did.
+// Only meaningful for single-task runs (plain increments).
+func Ops() uint64 { return w.ops }
+func ResetOps()   { w.ops = 0 }
